@@ -1,0 +1,18 @@
+//! Verification hooks (only compiled with `--cfg tracing_verif`).
+//!
+//! The `thread_local!` shadow stores one slot per *simulated* thread, indexed
+//! by the same thread cell as `tracing_core::__verif`, so that a
+//! single-threaded model checker can drive multi-thread histories. The
+//! wrappers that forward to private items live next to those items, in
+//! `__verif*` child modules of the files concerned (added lines only).
+#![allow(missing_docs, unreachable_pub)]
+
+pub use tracing_core::__verif::{set_thread, thread, SeqLocal, THREADS};
+
+macro_rules! thread_local {
+    ($(#[$a:meta])* $vis:vis static $name:ident : $t:ty = const { $init:expr } ; ) => {
+        $vis static $name: ::tracing_core::__verif::SeqLocal<$t> = ::tracing_core::__verif::SeqLocal {
+            slots: [const { $init }, const { $init }, const { $init }],
+        };
+    };
+}
